@@ -19,6 +19,7 @@ RULE = (
     "callback raising at chosen positions, optionally a follow-up request pending on the same connection while late progress for the finished one arrives; callback given as async def / callable object / partial / plain function returning the coroutine; the token shared with a sibling request or reused by a retry; a peer that stops reading after the request, so that further writes block) on a 10 ms virtual-time grid biased to poll boundaries, the deadline and each other; "
     "oracle = reference timeline of allowed outcomes; non-trivial = two of {cancel, response, deadline} within 0.5 s of each other, "
     "or a flood, or >=2 progress notifications with a raising callback; distinct = distinct full case"
+    "; added in rounds 6-7 of the seeded changes: params dicts that already carry _meta.progressToken"
 )
 ASSUMPTIONS = [
     "virtual clock: the library reads time only through the event loop",
